@@ -167,7 +167,7 @@ def run(index, tier="quick", seed=0) -> Result:
                             f"(path {' -> '.join(evr.path)}): the result depends on which queries ran before")
                 elif EXTRA_CACHE_READS:
                     res.ok("COH-6", k_)
-    if not any(f_.rule == "COH-6" for f_ in res.findings) and not res.rules.get("COH-6", {}).get("instances"):
+    if not any(f_.rule == "COH-6" for f_ in res.findings):
         res.ok("COH-6", "no copy of a shape carries a lazily filled cache past a write of the state it was computed from", nontrivial=False,
                sample={"members_with_copies_examined": ncopy, "lazy_caches": sorted(EXTRA_CACHE_READS)})
     # MEMO-1: results memoised on the identity of a mutable shape go stale after any mutation
